@@ -298,3 +298,60 @@ func (p *Parsed) VerifySPAO(key []byte) (present bool, spi uint32, algo uint8, o
 
 func (p *Parsed) SrcAddr() (netip.Addr, bool) { return netip.AddrFromSlice(p.SCION.RawSrcAddr) }
 func (p *Parsed) DstAddr() (netip.Addr, bool) { return netip.AddrFromSlice(p.SCION.RawDstAddr) }
+
+// ReversePath computes, independently of the library's Reverse methods, the raw bytes and type of the path a reply must carry.
+func ReversePath(p spathpkg.Path) ([]byte, spathpkg.Type, error) {
+	switch p.Type() {
+	case 0: // empty
+		return nil, 0, nil
+	case scion.PathType:
+		raw := make([]byte, p.Len())
+		if err := p.SerializeTo(raw); err != nil {
+			return nil, 0, err
+		}
+		var d scion.Decoded
+		if err := d.DecodeFromBytes(raw); err != nil {
+			return nil, 0, err
+		}
+		r := scion.Decoded{}
+		r.NumINF, r.NumHops = d.NumINF, d.NumHops
+		for i := 0; i < d.NumINF; i++ {
+			inf := d.InfoFields[d.NumINF-1-i]
+			inf.ConsDir = !inf.ConsDir
+			r.InfoFields = append(r.InfoFields, inf)
+			r.PathMeta.SegLen[i] = d.PathMeta.SegLen[d.NumINF-1-i]
+		}
+		for i := 0; i < d.NumHops; i++ {
+			r.HopFields = append(r.HopFields, d.HopFields[d.NumHops-1-i])
+		}
+		r.PathMeta.CurrINF = uint8(d.NumINF) - d.PathMeta.CurrINF - 1
+		r.PathMeta.CurrHF = uint8(d.NumHops) - d.PathMeta.CurrHF - 1
+		out := make([]byte, r.Len())
+		if err := r.SerializeTo(out); err != nil {
+			return nil, 0, err
+		}
+		return out, scion.PathType, nil
+	case 2: // one-hop: becomes the two-hop SCION path, seen from the receiver
+		raw := make([]byte, p.Len())
+		if err := p.SerializeTo(raw); err != nil {
+			return nil, 0, err
+		}
+		var info spathpkg.InfoField
+		var h1, h2 spathpkg.HopField
+		info.DecodeFromBytes(raw[:8])
+		h1.DecodeFromBytes(raw[8:20])
+		h2.DecodeFromBytes(raw[20:32])
+		r := scion.Decoded{}
+		r.NumINF, r.NumHops = 1, 2
+		r.PathMeta.SegLen[0] = 2
+		r.InfoFields = []spathpkg.InfoField{{ConsDir: false, SegID: info.SegID, Timestamp: info.Timestamp}}
+		r.HopFields = []spathpkg.HopField{h2, h1}
+		out := make([]byte, r.Len())
+		if err := r.SerializeTo(out); err != nil {
+			return nil, 0, err
+		}
+		return out, scion.PathType, nil
+	}
+	return nil, 0, fmt.Errorf("path type %d", p.Type())
+}
+
